@@ -125,7 +125,7 @@ fn dec_sel(u: &mut Unstructured<'_>, prop: &str) -> AResult<AnyCase> {
         })
     };
     Ok(match u.int_in_range(0..=2u8)? {
-        0 => AnyCase::Part(PartCase { pivot: pos(u, n)?, values, stride: st, offset }),
+        0 => AnyCase::Part(PartCase { pivot: pos(u, n)?, values, stride: st, offset, elem: u.arbitrary::<u8>()? % 4 }),
         1 => AnyCase::Sel(SelCase { index: pos(u, n)?, values, stride: st, offset, pivots: pivots(u)? }),
         _ => {
             let k = small(u, 6)?;
